@@ -57,6 +57,13 @@ func agentMain() {
 		out.Write(append(b, '\n'))
 		out.Flush()
 	}
+	if m := os.Getenv("VERIF_AGENT_FAIL_FIRST"); m != "" {
+		// the first start of the agent fails (a transient spawn / connect problem); later starts work
+		if _, err := os.Stat(m); err != nil {
+			os.WriteFile(m, []byte("x"), 0o644)
+			os.Exit(3)
+		}
+	}
 	script := "e"
 	if b, err := os.ReadFile(os.Getenv("VERIF_AGENT_SCRIPT")); err == nil && strings.TrimSpace(string(b)) != "" {
 		script = strings.TrimSpace(string(b))
